@@ -784,6 +784,11 @@ class _ColorConfColorDescr:
                 self.fg_color = parent.fg_color
             if self.bg_color == "":
                 self.bg_color = parent.bg_color
+            # "-" explicitly selects the system color (don't inherit)
+            if self.fg_color == "-":
+                self.fg_color = None
+            if self.bg_color == "-":
+                self.bg_color = None
             self.modifiers = {**parent.modifiers, **self.modifiers}
         else:
             assert parent is None
